@@ -239,6 +239,25 @@ int main(int argc, char** argv)
 			double q = Quantile_Gauss(p, mu, s);
 			// CDF_Gauss = (1 + erf)/2 is itself rounded at about 1e-16 absolute (coarse relative to p in the far lower tail)
 			T.emit({{"e", "Quantile"}, {"ok", CDF_Gauss(q - 1.5e-4 * s, mu, s) - 4 * EPS <= p && p <= CDF_Gauss(q + 1.5e-4 * s, mu, s) + 4 * EPS}});
+			// the two-dimensional normal density of independent coordinates is the product of the one-dimensional densities (whose
+			// interval integrals the Grid event above ties to CDF_Gauss): widths differ by up to six decades, points out to 9 sigma
+			{
+				std::pair<double, double> mean(mu, g.uni(-100, 100)), sigma(s, g.coin(0.15) ? s : g.logu(1e-3, 1e3));
+				long worst = 0;
+				bool nonneg = true;
+				intent("PDF_Gauss_2D");
+				for(int k = 0; k < 12; k++)
+				{
+					double x = mean.first + sigma.first * g.uni(-9, 9), y = mean.second + sigma.second * g.uni(-9, 9);
+					if(k == 0)
+						x = mean.first, y = mean.second;
+					double v = PDF_Gauss_2D(x, y, mean, sigma), w = PDF_Gauss(x, mean.first, sigma.first) * PDF_Gauss(y, mean.second, sigma.second);
+					double z = 0.5 * (std::pow((x - mean.first) / sigma.first, 2) + std::pow((y - mean.second) / sigma.second, 2));
+					nonneg	 = nonneg && v >= 0;
+					worst	 = std::max<long>(worst, quant(v - w, (64 + 8 * z) * EPS * std::fabs(w) + 1e-300));
+				}
+				T.emit({{"e", "Gauss2D"}, {"q", worst}, {"nonneg", nonneg}});
+			}
 		}
 		else if(fam == 2)
 		{
